@@ -257,7 +257,8 @@ class Run:
             s.set("timeout", self.ctx.feas_timeout_ms)
             s.add(self.solver.assertions())
             s.add(c)
-            r = s.check()
+            from .solve import guarded_check
+            r = guarded_check(s, self.ctx.feas_timeout_ms)
         except z3.Z3Exception:
             return True  # could not decide: keep the path (sound)
         self.ctx.stats["feas_checks"] += 1
@@ -271,7 +272,8 @@ class Run:
             s = z3.Solver()
             s.set("timeout", self.ctx.feas_timeout_ms)
             s.add(self.solver.assertions())
-            return s.check() != z3.unsat
+            from .solve import guarded_check
+            return guarded_check(s, self.ctx.feas_timeout_ms) != z3.unsat
         except z3.Z3Exception:
             return True
 
